@@ -494,10 +494,11 @@ class Program:
                 for m in MODES:
                     yield "%s.r%d.k%d.m%d" % (self.name, ri, k, m), r, ri, k, m
 
-    def expected(self, r, ri, k, m):
-        """-> (items [(name, kind, value, unit)], paths [(key, leaf)], sg [(k, v)])"""
+    def expected(self, r, ri, k, m, absent=None):
+        """-> (items [(name, kind, value, unit)], paths [(key, leaf)], sg [(k, v)]); `absent` collects the paths
+        that TLC expects to contribute nothing in this instance (ignored fields, None leaves, None children)"""
         items, paths, sg = [], [], []
-        expect_node(r, self.root_seed(ri), m, k, 1, items, paths, sg)
+        expect_node(r, self.root_seed(ri), m, k, 1, items, paths, sg, absent)
         return items, paths, sg
 
 
@@ -511,9 +512,9 @@ def value_of(exp, s, i):
     return vc[1:]
 
 
-def expect_fields(f, s, m, k, lvl, items, paths, sg):
+def expect_fields(f, s, m, k, lvl, items, paths, sg, absent=None):
     def leaf(slot):
-        if not f.leaves:
+        if not f.leaves or (slot == "ignore" and f.no_ignore):
             return
         lk = slot
         if slot == "opt":
@@ -522,6 +523,8 @@ def expect_fields(f, s, m, k, lvl, items, paths, sg):
             lk = "senumA" if m & 1 else "senumB"
         exp = f.leaves[lk]
         if not exp["p"]:
+            if absent is not None:
+                absent.add((f.key, "L:" + lk))
             return
         val = value_of(exp, s, SLOT_IDX[slot])
         items.append((exp["n"], exp["k"], val, exp["u"]))
@@ -533,15 +536,17 @@ def expect_fields(f, s, m, k, lvl, items, paths, sg):
         leaf(sl)
     for j, e in enumerate(f.edges):
         if e.optional and not (m >> lvl) & 1:
-            continue        # TLC: the absent edge is a terminal path that contributes nothing
-        expect_node(e.child, sub(s, j), m, k, lvl + 1, items, paths, sg)
+            if absent is not None:      # TLC: the absent edge is a terminal path that contributes nothing
+                absent.add((e.key, "None"))
+            continue
+        expect_node(e.child, sub(s, j), m, k, lvl + 1, items, paths, sg, absent)
     for sl in TAIL:
         leaf(sl)
 
 
-def expect_node(n, s, m, k, lvl, items, paths, sg):
+def expect_node(n, s, m, k, lvl, items, paths, sg, absent=None):
     if n.kind == "s":
-        expect_fields(n.fields, s, m, k, lvl, items, paths, sg)
+        expect_fields(n.fields, s, m, k, lvl, items, paths, sg, absent)
         return
     va = n.variants[k % len(n.variants)]
     if va.tag is not None and va.tag["p"]:
@@ -550,7 +555,7 @@ def expect_node(n, s, m, k, lvl, items, paths, sg):
         paths.append((va.key, "T"))
         if va.tag["g"]:
             sg.append((va.tag["n"], val))
-    expect_fields(va.fields, s, m, k, lvl, items, paths, sg)
+    expect_fields(va.fields, s, m, k, lvl, items, paths, sg, absent)
 
 
 # ------------------------------------------------------------------------------------------------
